@@ -49,6 +49,15 @@
 // the requests at the store and to the cancellation / time-out of the waiting callers. Oracle: own response, exactly
 // once, and every request that is not identical to a pending one reaches the store (see the header of collapse.go).
 //
+// Part D (configurations with part=D) explores time-outs that fire while a request is selected into a batch but not
+// yet written to the stream: the store accepts the dial, but the connection becomes ready only at the environment
+// event R (a default event, possible at every point - so it can be delayed past any caller's time-out). Until then
+// the send loop waits in waitConnReady holding its first batch, later submissions (plain, high priority, forwarded,
+// asynchronous) queue behind it, and T<i> / C<i> / DB (the dial budget elapses: connection failure) / X (Close)
+// happen in all orders. Same oracle: T -> that call returns a time-out error, exactly once, nobody else returns; a
+// panic in the caller's goroutine is recovered by the caller wrapper and reported as panic/caller/<api>/after-<event>/
+// request-not-yet-written:connection-not-ready; after R the healthy-store oracle applies again.
+//
 // Nothing is decided by wall-clock time. If quiescence cannot be established, or an execution took
 // longer than 0.5 s (a real timer of gRPC could have fired), the execution is repeated and finally
 // counted as inconclusive (exhaustive:false). A violation is believed only if three re-executions
@@ -339,6 +348,7 @@ type totals struct {
 	sendChecks      int
 	partB           map[string]int
 	partC           map[string]int
+	partD           map[string]int
 	poisoned        int
 	mismatchSamples []string
 	details         []string
@@ -369,6 +379,9 @@ func (t *totals) merge(cfg Config, r *subtreeResult) {
 	}
 	for k, v := range r.PartC {
 		t.partC[k] += v
+	}
+	for k, v := range r.PartD {
+		t.partD[k] += v
 	}
 	for _, s := range r.States {
 		t.states[s] = struct{}{}
@@ -460,6 +473,11 @@ func tierConfigs(thorough bool) []Config {
 			{Part: "B", Callers: 3, MaxF: 3, Conns: 1},
 			{Part: "B", Callers: 4, MaxF: 3, Conns: 1, Limit: 1},
 			{Part: "B", Callers: 4, MaxF: 2, Conns: 1, Limit: 2},
+			// part D: the connection of the store is not ready when the first calls arrive (event R = ready, DB = dial
+			// budget elapsed): time-outs / cancellations / Close hit calls that are selected into a batch (or queued behind
+			// it) but not yet written; default limit and limit 1
+			{Part: "D", Callers: 3, MaxF: 2, Conns: 1, Variants: true},
+			{Part: "D", Callers: 3, MaxF: 2, Conns: 1, Limit: 1, Variants: true},
 		}
 	}
 	return []Config{
@@ -477,6 +495,10 @@ func tierConfigs(thorough bool) []Config {
 		{Part: "B", Callers: 5, MaxF: 2, Conns: 1, Limit: 2},
 		{Part: "B", Callers: 5, MaxF: 2, Conns: 1, Limit: 3},
 		{Part: "B", Callers: 4, MaxF: 3, Conns: 2, Limit: 1},
+		// part D (see the quick tier), deeper
+		{Part: "D", Callers: 3, MaxF: 3, Conns: 1, Variants: true},
+		{Part: "D", Callers: 4, MaxF: 2, Conns: 1, Variants: true},
+		{Part: "D", Callers: 3, MaxF: 3, Conns: 1, Limit: 1, Variants: true},
 		{Callers: 3, MaxF: 3, Conns: 1, Limit: 2, Variants: true, Stale: true, AddrX: true},
 		{Callers: 2, MaxF: 4, Conns: 1, Variants: true, Stale: true, AddrX: true},
 		{Callers: 3, MaxF: 4, Conns: 1, Variants: true, Stale: true, AddrX: true},
@@ -717,7 +739,7 @@ func main() {
 	}
 	deadline := time.Now().Add(budget)
 	tot := &totals{states: map[uint64]struct{}{}, outcomes: map[string]int{}, inconclusive: map[string]int{}, byF: map[string]int{},
-		kinds: map[string]int{}, partB: map[string]int{}, partC: map[string]int{}, errorLogs: map[string]bool{}, viol: map[string]violHit{}, violCfg: map[string]Config{}, obs: map[string]violHit{}, obsCfg: map[string]Config{}}
+		kinds: map[string]int{}, partB: map[string]int{}, partC: map[string]int{}, partD: map[string]int{}, errorLogs: map[string]bool{}, viol: map[string]violHit{}, violCfg: map[string]Config{}, obs: map[string]violHit{}, obsCfg: map[string]Config{}}
 	samples := ev.NewSamples(6, run.Seed)
 	cfgs := tierConfigs(run.Thorough())
 	var cfgNames []string
@@ -769,13 +791,19 @@ func main() {
 			"Part C (configurations part=C, collapse.go): the same enumeration on NewReqCollapse(NewInterceptedClient(scripted store)): events = caller i submits " +
 			"request shape s through SendRequest / SendRequestAsync (every shape of the grid x both APIs is a branch), the store answers / fails / times out its n-th request " +
 			"(any order), caller i cancels / its own time-out fires; at most F failures, time-outs and cancellations; states there = callers (shape, API, result class, flight " +
-			"they wait for) x store request table; the reference model knows only request contents, never the collapse key",
+			"they wait for) x store request table; the reference model knows only request contents, never the collapse key. " +
+			"Part D (configurations part=D): the same enumeration as part A on a store whose connection is not ready: additional environment events R (connection becomes " +
+			"ready; default event, enabled at every point until it happened) and DB (the dial budget of the batch that waits for the connection elapses; deviation), " +
+			"with submissions of every variant, T<i>, C<i>, AA, X; states there additionally contain: connection withheld, a batch waiting in waitConnReady, budget elapsed, " +
+			"which calls gave up before their request was written; non-trivial there = a deviation event (T, C, DB, X) happened while a call was in flight with its " +
+			"request not yet written and the connection not ready (coverage.part_D counts them per event kind)",
 		"samples": samples.List(),
 		"bounds": map[string]any{"configurations": cfgNames, "split_depth": "3 (5 with 4 callers; part C: 2, 3 with >= 3 callers)", "worker_processes": nproc,
 			"part_C_grids": partCGrids(cfgs)},
 		"per_configuration": tot.perCfg,
 		"part_B":            tot.partB,
 		"part_C":            tot.partC,
+		"part_D":            tot.partD,
 		"healthy_store_oracle": map[string]any{
 			"slot_accounting_evaluations":                   tot.acctChecks,
 			"request_never_sent_evaluations_at_submissions": tot.sendChecks,
@@ -811,6 +839,7 @@ func main() {
 		"A livelock is reported only on positive evidence that does not depend on time: in 40 consecutive scheduler passes the client's no-available-connection counter moved and stack snapshots show the send loop as the only goroutine that is not blocked.",
 		"Healthy-store oracle: a violation is claimed only where the environment withheld nothing - client open, no armed send failure, every needed stream alive, every request the server received answered (drain), the send loop woken by a submission / probe after the slot was free, and unbounded virtual time (the time-outs of waiting calls are never fired by the epilogue; a T event of the enumeration is a legitimate time-out and is judged by the time-out rule only). Free slots are computed from the server's table, never from the client's counters. NOT judged (observation queued_behind_limit_until_next_submission): the unchanged client re-examines calls queued behind max-concurrency-request-limit only when a new submission wakes the send loop - an answer that frees a slot does not; such a call waits for the next submission or its own time-out (an asynchronous one for ever if no further call to that store is made). Executions in which a stream failed after the stream of the other kind of its connection had failed (known unclaimed entry leak, findings/C18-candidate-fixes.diff item 1) are not judged by this oracle from that point on. With 2 connections and a finite limit only call-never-returns and slot-accounting are evaluated (which connection a call is queued for is not observable).",
 		"Part C: the store below the collapse layer is scripted (it parks every request and echoes it in the response), so the collapse layer is explored on its own, not stacked on the batch client of parts A/B; its time-out timer is virtual (vtime rewrite of client_collapse.go). Sharing a flight is never demanded, only wrong sharing is judged: a submission that makes no request arrive at the store must have an identical request pending there (whatever its kind). Requests that differ only in the commit version (one pair in the grid) are outside the judged domain - a transaction has one fate - and are reported as observation requests_differing_only_in_commit_version_share_a_flight. The store address and the region epoch / peer of the request context are fixed. Events are separated by quiescence (level 1), so two submissions never race inside singleflight.",
+		"Part D: 'connection not ready' is produced by a dialer that waits for the explorer's event R before it connects to the in-memory listener (gRPC stays in CONNECTING: a store that accepts the dial but does not complete the handshake); while it is withheld the dial budget of waitConnReady elapses only as event DB (not at quiescence), so callers' time-outs shorter than the dial budget are enumerated; gRPC's own connect time-out (5 s, real) does not fire inside an execution. Which not-yet-written calls a DB event fails is not prescribed (any of them may fail with the connection failure). The model does not know which calls are selected into the waiting batch and which are queued behind it (both classes are reached: first submission vs later ones). A later group waiting behind a blocked stream.Send (flow control) is NOT modelled. After Close with the connection withheld the course of the send loop depends on select's pseudo-random choice between the next queued entry and `closed` (fetchAllPendingRequests): such executions are repeated up to 10 times to see both courses, and a blocked call there is believed when one of up to 12 fully audited re-executions reproduces it (instead of 3 of 3).",
 		"Batch policy 'basic' (no time based batch waiting); the server never answers on a stream of another connection or kind; stream drops do not break the connection; errors of waitConnReady (dial budget) count as connection failures.",
 	})
 }
